@@ -5,6 +5,7 @@ mod mk;
 mod reg;
 mod serde_ctx;
 mod model;
+mod panics;
 mod tagjson;
 mod types;
 
@@ -356,6 +357,8 @@ fn reobserve(a: &HashMap<String, String>) -> i32 {
         .collect();
     let w = World::new(specs, ctxs);
     let mut tw = BufWriter::new(File::create(out).unwrap());
+    let mut hw: Option<hist::HWorld> = None;
+    let mut rb: Option<wirefilter::SchemeBuilder> = None;
     for mut e in read(inp.clone()) {
         let kind = e["ev"].as_str().unwrap_or("").to_string();
         match kind.as_str() {
@@ -384,6 +387,69 @@ fn reobserve(a: &HashMap<String, String>) -> i32 {
                 for k in ["ok", "out", "ast", "runs", "uses"] {
                     e[k] = o[k].clone();
                 }
+            }
+            "script" => {
+                let ops: Vec<String> = serde_json::from_value(e["script"].clone()).unwrap();
+                let t = e["t"].as_u64().unwrap() as usize;
+                let mut evs = Vec::new();
+                panics::rerun_script(t, ops, &mut evs);
+                for k in ["obs", "levels", "sent", "status"] {
+                    e[k] = evs[0][k].clone();
+                }
+            }
+            "reset" if e.get("init").is_some() => {
+                hw = Some(hist::HWorld::new(w.specs.clone()));
+                for sid in e["init"].as_array().unwrap() {
+                    hw.as_mut().unwrap().new_ctx(sid.as_u64().unwrap() as usize);
+                }
+            }
+            "op" => {
+                if let Some(h) = hw.as_mut() {
+                    let op = e["op"].clone();
+                    let res = std::panic::catch_unwind(std::panic::AssertUnwindSafe(|| h.apply(&op)))
+                        .unwrap_or_else(|_| json!({"out": "panic", "v": Val::nil()}));
+                    let c = e["c"].as_u64().unwrap() as usize;
+                    e["res"] = res;
+                    if c <= h.ctxs.len() {
+                        e["after"] = h.abs(c);
+                    }
+                }
+            }
+            "reset" => {
+                rb = Some(wirefilter::SchemeBuilder::new());
+            }
+            "add" => {
+                if let Some(b) = rb.as_mut() {
+                    let op = e["op"].clone();
+                    e["res"] = json!(reg::apply_reg(b, &op));
+                }
+            }
+            "built" => {
+                if let Some(b) = rb.take() {
+                    let s = b.build();
+                    let names: Vec<String> = e["probes"].as_array().unwrap().iter().map(|p| p["name"].as_str().unwrap().to_string()).collect();
+                    let probes: Vec<Value> = names.iter().map(|p| {
+                        std::panic::catch_unwind(std::panic::AssertUnwindSafe(|| reg::probe(&s, p)))
+                            .unwrap_or_else(|_| json!({"name": p, "panic": true}))
+                    }).collect();
+                    e["probes"] = json!(probes);
+                    e["summary"] = reg::summary(&s);
+                    let cl = s.clone();
+                    e["eq_clone"] = json!(s == cl);
+                }
+            }
+            "type" => {
+                let lay: Vec<u8> = serde_json::from_value(e["lay"].clone()).unwrap();
+                let p: Vec<String> = serde_json::from_value(e["path"].clone()).unwrap();
+                e["obs"] = types::observe_type(e["prim"].as_str().unwrap(), &lay, &p);
+            }
+            "scheme" => {
+                let o = types::reobserve_scheme(&e);
+                e["de"] = o["de"].clone();
+                e["built"] = o["built"].clone();
+            }
+            "ser" | "rt" | "de" | "trunc" => {
+                serde_ctx::reobserve(&w.specs, &w.schemes, &mut e);
             }
             _ => {}
         }
@@ -633,6 +699,36 @@ fn gen_reg(a: &HashMap<String, String>) {
     println!("{}", serde_json::to_string(&json!({"events": nev, "histories": n})).unwrap());
 }
 
+fn replay_panic_cmd(a: &HashMap<String, String>) -> i32 {
+    let path = a.get("in").expect("--in");
+    let out = a.get("out").cloned().unwrap_or_else(|| "/dev/null".into());
+    let f = BufReader::new(File::open(path).unwrap());
+    let mut ow = BufWriter::new(File::create(&out).unwrap());
+    let (mut n, mut bad, mut steps) = (0u64, 0u64, 0u64);
+    for line in f.lines() {
+        let line = line.unwrap();
+        if line.trim().is_empty() {
+            continue;
+        }
+        let v: Value = serde_json::from_str(&line).expect("vector json");
+        if v.get("hdr").is_some() {
+            continue;
+        }
+        n += 1;
+        steps += v["sched"].as_array().map(|s| s.len() as u64).unwrap_or(0);
+        let (obs, diffs) = panics::replay_panic(&v);
+        if !diffs.is_empty() {
+            bad += 1;
+            let src = format!("scripts={} sched={}", v["scripts"], v["sched"]);
+            serde_json::to_writer(&mut ow, &json!({"vector": v, "src": src, "observed": obs, "diffs": diffs})).unwrap();
+            ow.write_all(b"\n").unwrap();
+        }
+    }
+    ow.flush().unwrap();
+    println!("{}", serde_json::to_string(&json!({"vectors": n, "mismatches": bad, "runs": steps})).unwrap());
+    if bad > 0 { 1 } else { 0 }
+}
+
 fn replay_types_cmd(a: &HashMap<String, String>) -> i32 {
     let path = a.get("in").expect("--in");
     let out = a.get("out").cloned().unwrap_or_else(|| "/dev/null".into());
@@ -741,8 +837,22 @@ fn main() {
         "replay-hist" => replay_hist_cmd(&a),
         "replay-reg" => replay_reg_cmd(&a),
         "replay-types" => replay_types_cmd(&a),
+        "replay-panic" => replay_panic_cmd(&a),
         "gen-serde" => {
             gen_serde(&a);
+            0
+        }
+        "gen-panic" => {
+            let seed: u64 = a.get("seed").and_then(|s| s.parse().ok()).unwrap_or(1);
+            let n: usize = a.get("n").and_then(|s| s.parse().ok()).unwrap_or(10);
+            let len: usize = a.get("len").and_then(|s| s.parse().ok()).unwrap_or(200);
+            let out = a.get("out").cloned().unwrap_or_else(|| ".".into());
+            let mut evs = Vec::new();
+            panics::gen_panic(seed, n, len, &mut evs);
+            write_ndjson::<Value>(&format!("{out}/schemes.ndjson"), &[]);
+            write_ndjson::<Value>(&format!("{out}/ctxs.ndjson"), &[]);
+            write_ndjson(&format!("{out}/trace.ndjson"), &evs);
+            println!("{}", serde_json::to_string(&json!({"events": evs.len()})).unwrap());
             0
         }
         "gen-types" => {
